@@ -50,10 +50,14 @@ CHECKS["C14"] = dict(
     _COMMON, level="fault_enumeration", design_ref="5 (C14)",
     design=[dict(spec="MCLSCore.tla", cfg="MCLSCoreQ.cfg", workers=8, timeout=600, coverage=False)],
     gen=dict(
-        quick=[dict(mode="sim", spec="LSCoreGen.tla", cfg="LSCoreGenSim.cfg", depth=8, num=80, max=600, name="walks",
-                    env={"VERIF_LSMODE": "c14"})],
-        thorough=[dict(mode="sim", spec="LSCoreGen.tla", cfg="LSCoreGenSim.cfg", depth=10, num=300, max=5000, name="walks",
-                       env={"VERIF_LSMODE": "c14"})]),
+        quick=[dict(mode="sim", spec="LSCoreGen.tla", cfg="LSCoreGenSim.cfg", depth=8, num=40, max=300, name="walks",
+                    env={"VERIF_LSMODE": "c14"}),
+               dict(mode="sim", spec="LSCoreGen.tla", cfg="LSCoreGenSim.cfg", depth=7, num=60, max=400, name="one-context walks", salt=5,
+                    env={"VERIF_LSMODE": "c14f"})],
+        thorough=[dict(mode="sim", spec="LSCoreGen.tla", cfg="LSCoreGenSim.cfg", depth=10, num=300, max=3000, name="walks",
+                       env={"VERIF_LSMODE": "c14"}),
+                  dict(mode="sim", spec="LSCoreGen.tla", cfg="LSCoreGenSim.cfg", depth=9, num=400, max=4000, name="one-context walks", salt=5,
+                       env={"VERIF_LSMODE": "c14f"})]),
     corrupt=_cor_c14, selftest_scenarios=100000,
     nontrivial=lambda s: sum(1 for o in s["ops"] if o["op"] in ("put", "set", "gc")) >= 2,
     rule="TLC-generated histories of puts (all modes/contexts, batches), set pin/unpin/remove/sync and collection runs, executed on a store whose "
